@@ -7,4 +7,32 @@ CHECKS = {
   'note': 'Trusted: the virtual loop runs callbacks FIFO like asyncio; time only advances at tick events; same-instant candidates are all accepted (DESIGN 2.5/2). Bounds: script length, deviation bound, scenario alphabets in checks/c03.py.',
   'design_ref': 'DESIGN.md section 3 C03',
  },
+ 'C01': {
+  'engine': 'E-input',
+  'technique': 'bounded-exhaustive enumeration of encoder inputs on the real code (complete menu products, every payload length in windows / 0..70000), independent strict TLV reader as oracle',
+  'text': 'Every case of complete products of code-derived menus (names 0..3 components over 7 kinds in 4-5 representations; all 648 InterestParam and 61 MetaInfo combinations; every Name length and payload length in windows around 253 and 65536 (thorough: every payload length 0..70000 for six combinations); all shipped signers, ECDSA at every DER length the DRBG reaches, and a synthetic signer with every shrink amount) is encoded with the real make_interest/make_data and checked by an independent strict reader: one well-formed element, shortest-form numbers, exact lengths at every nesting level, fields equal to the inputs, params digest equal to SHA-256 of the reference-located range, and parse_* returning the same.',
+  'note': 'Trusted: mc/ref/tlv_strict.py and mc/ref/ndn_strict.py (written from the NDN packet format 0.3 spec); bounds: names <= 3 components, payload <= 70000.',
+  'design_ref': 'DESIGN.md section 3 C01',
+ },
+ 'C04': {
+  'engine': 'E-hist + E-input',
+  'technique': 'explicit enumeration of all prefix subsets x all probe names and of all attach/detach histories up to a depth, each executed on the real tries through the real receive path, naive longest-prefix reference',
+  'text': 'All subsets of a 15-name prefix tree (quick: all subsets of the 7-name tree plus all subsets of size <=3) attached in rotating representations on appv2, the legacy app and Dispatcher, probed with all 121 Interest names of length <=4 over 3 letters through the real receive path; all attach/detach histories up to depth 4 (thorough 5) over 4 nested/sibling prefixes with the whole lookup table compared to a reference dict after every step; reply timing product (lifetime x instant around the deadline x repetitions) for the reply callback.',
+  'note': 'Trusted: naive list-prefix reference. Detaching an unattached prefix is outside the statement (table must be unchanged).',
+  'design_ref': 'DESIGN.md section 3 C04',
+ },
+ 'C05': {
+  'engine': 'E-sched + E-input',
+  'technique': 'stateless model checking of the implementation (verdict x latency x event order x deviation placement on a virtual loop) with the reference PIT; complete product of incoming-Interest kinds x digest variants x validator verdicts',
+  'text': 'Consumer side: for every validator verdict (all ValidResult members and plain Python values) x validator latency (0, <, =, > lifetime) x front-end, with a second Interest sharing the node, all orders of Data/ticks and <=2 (quick) / <=3 (thorough) deviations are executed; the outcome must be the payload only if accepted and in time, else a ValidationFailure carrying packet and verdict, or a timeout. Producer side: the complete product Interest kind x digest variant x validator verdict x latency x front-end through the real receive path; the handler is called exactly when the statement allows and only after the validator returned.',
+  'note': 'Legacy front-end validates after the wait ended: late-validator clause checked in weak form there (DESIGN C05). Trusted: reference PIT, same-instant rule.',
+  'design_ref': 'DESIGN.md section 3 C05',
+ },
+ 'C06': {
+  'engine': 'E-sched + fault enumeration',
+  'technique': 'exhaustive chunking/EOF enumeration of the real StreamFace.run on a real StreamReader under a deviation-bounded scheduler; exhaustive single-edit fault enumeration of a packet corpus and all short byte strings delivered through the real UdpFace handler into populated applications',
+  'text': 'Framing: every chunking (all 2^(n-1) for streams <=14 bytes, all <=2/<=3 cuts at every type/length byte otherwise) and every EOF offset of packet sequences with 1/3/5/9-byte numbers, with <=1/<=2 deviations, against a reference framer. Robustness: every single-byte substitution (12 values quick, all 256 thorough), every truncation, TLV-level edits at two nesting levels of a 17-packet corpus, all byte strings of length <=2 and all strings of length <=4/5 over a 12-symbol alphabet, delivered as datagrams into both front-ends holding pending Interests (exact, prefix, digest, bystander) and handlers; no exception, no failed task, pending Interests end legally, bystanders still work.',
+  'note': 'Trusted: reference framer; bystander names more than one edit away from corpus names. Multi-edit corruptions are not enumerated.',
+  'design_ref': 'DESIGN.md section 3 C06',
+ },
 }
